@@ -25,6 +25,7 @@ def run(ctx):
                             "independent Go decoder's reading; pp_step regenerates every emission sequence byte for byte; "
                             "fec_encode/encode_oob = the real fecEncoder)")
     V.merge_report(ctx, rep, summ)
+    U.io_part(ctx)
     U.run_parts(ctx, ["tx"])
     if ctx.broken and not ctx.violations and ctx.quick():
         # search: the same monitors over the full cipher x FEC x MTU product
